@@ -663,7 +663,8 @@ class TypeTransformer:
         if self.no_explicit_cast:
             return t(data)  # noqa
         if not self.no_data_loss:
-            if data in t.__members__:  # noqa
+            if isinstance(data, str) and data in t.__members__:
+                # (member names are strings: an unhashable input must not fail the lookup)
                 return t.__members__[data]  # noqa
         member_type = getattr(t, "_member_type_", None)
         if member_type and member_type != object:
